@@ -213,8 +213,17 @@ def main(ctx: Ctx) -> int:
     ncase = 40 if ctx.quick else 500
     traces, meta = [], {}
     tid = 0
-    for ci in range(ncase):
-        case = gen_case(rng, ci)
+    fixed = []
+    for q, (text, val) in enumerate(KROME_EXOTIC_TEXT):     # one KROME file per untranslated spelling, as lower and as upper limit
+        for side in ("tmin", "tmax"):
+            rec = {"r": ["H", "H"], "p": ["H2"], "a": 1.0e-10, "b": 0.5, "c": 0.0, "tmin": val if side == "tmin" else -1.0, "tmax": val if side == "tmax" else -1.0,
+                   "idx": 1, "code": None}
+            line = encoders.krome(rec, tmin_text=text if side == "tmin" else "NONE", tmax_text=text if side == "tmax" else "NONE")
+            fixed.append({"files": [("krome", "@format:idx,R,R,R,P,P,P,P,P,Tmin,Tmax,rate\n" + line + "\n")],
+                          "declared": [{"tmin": int(round(rec["tmin"] * 100)), "tmax": int(round(rec["tmax"] * 100)), "idx": 1, "fmt": "krome", "line": line}],
+                          "mods": {}, "may_refuse": True})
+    for ci in range(ncase + len(fixed)):
+        case = fixed[ci - ncase] if ci >= ncase else gen_case(rng, ci)
         d = ctx.sub("in") / str(ci)
         d.mkdir()
         flist, fmts = [], []
